@@ -23,3 +23,5 @@ def check(ctx):
     # the property is observed on scanners obtained through build(): the cache must hand back the configuration's own compilation
     from .common import cache_foundation
     cache_foundation(ctx)
+    from . import error_rules
+    error_rules.analyze(ctx, "C15.i")     # no error is discarded on the way: a failing build / an unwritable file is reported to the caller
